@@ -88,6 +88,17 @@ def build_rsa(desc):
       adm = [(16, 9), (16, 11), (32, 5), (32, 7), (64, 3)]
       ws, ps = adm[k % len(adm)]
       p, q = fam.permuted_pattern_prime(mat, N // 2, ps, ws)[0], mat.prime(N // 2, top2=True)
+    elif kind == 'unseeded':
+      from paranoid_crypto.lib.data import unseeded_rands  # pylint: disable=g-import-not-at-top
+      vals = sorted(unseeded_rands.size_unseeded_map[512])
+      v = vals[k % len(vals)] | (3 << 510)
+      p = fam.next_prime(v)
+      while True:
+        q = mat.prime(512)
+        if ((p * q).bit_length() + 1) // 2 == 512:
+          break
+    elif kind == 'healthy_1024':
+      p, q = fam.healthy(mat, 1024)
     elif kind == 'healthy_small':
       p, q = fam.healthy(mat, [768, 1024, 1536][k % 3])
     elif kind == 'lowhw':
@@ -223,7 +234,7 @@ CHECKS = {
 AIM = {
     'pattern': 'CheckBitPatterns', 'pattern_big': 'CheckBitPatterns', 'permuted_big': 'CheckPermutedBitPatterns',
     'fermat': 'CheckFermat', 'shared': 'CheckGCD', 'dup': 'CheckGCD', 'n1shared': 'CheckGCDN1',
-    'lowhw': 'CheckLowHammingWeight', 'near': 'CheckECKeySmallDifference', 'same': 'CheckECKeySmallDifference',
+    'lowhw': 'CheckLowHammingWeight', 'unseeded': 'CheckUnseededRand', 'near': 'CheckECKeySmallDifference', 'same': 'CheckECKeySmallDifference',
     'small': 'CheckWeakECPrivateKey', 'shift': 'CheckWeakECPrivateKey', 'off': 'CheckValidECKey',
     'msb': 'CheckNonceMSB', 'prefix': 'CheckNonceCommonPrefix', 'postfix': 'CheckNonceCommonPostfix',
     'u2f': 'CheckCr50U2f',
@@ -378,7 +389,8 @@ def strat_contexts(tier):
     if t == 'rsa':
       arts = draw(st.lists(st.tuples(st.sampled_from(['healthy', 'fermat', 'shared', 'pattern', 'lowhw',
                                                        'n1shared', 'dup', 'pattern_big', 'pattern_big',
-                                                       'permuted_big', 'healthy_small', 'healthy_small']),
+                                                       'permuted_big', 'healthy_small', 'healthy_small', 'unseeded', 'unseeded',
+                                                       'healthy_1024']),
                                      st.integers(0, 1000)).map(list), min_size=1, max_size=5))
       check = draw(st.integers(0, 11))
     elif t == 'ec':
